@@ -580,6 +580,35 @@ def format_tie(out, enc, ecc, lib, comp, config):
     m = re.search(r"let format_version = src\.read_u32::<(\w+)>\(\)\?;", lib)
     m2 = re.search(r"dest\.write_u32::<(\w+)>\(self\.format_version\)\?;", lib)
     str_list("VERSION_ENDIAN", [m.group(1) if m else "?", m2.group(1) if m2 else "?"])
+    # work package hdrsrc: the ORDER of the source reads of ArchiveHeader::from (magic, version, then
+    # the bounded fixint bincode deserialisation straight from the source, every failure of which
+    # becomes DeserializationError) and of the writes of ArchiveHeader::dump
+    mf = re.search(r"impl ArchiveHeader \{\s*pub fn from<T: Read>\(src: &mut T\)(.*?)\n    fn dump<T: Write>\(&self, dest: &mut T\)(.*?)\n\}\n", lib, re.S)
+    if mf:
+        toks = [("read_exact(magic)", r"vec!\[00u8; MLA_MAGIC\.len\(\)\];\s*src\.read_exact\(buf\.as_mut_slice\(\)\)\?;"),
+                ("WrongMagic", r"if buf != MLA_MAGIC \{\s*return Err\(Error::WrongMagic\);"),
+                ("read_u32", r"src\.read_u32::<\w+>\(\)\?;"),
+                ("UnsupportedVersion", r"if format_version != MLA_FORMAT_VERSION \{\s*return Err\(Error::UnsupportedVersion\);"),
+                ("with_limit(BINCODE_MAX_DESERIALIZE)", r"\.with_limit\(BINCODE_MAX_DESERIALIZE\)"),
+                ("with_fixint_encoding", r"\.with_fixint_encoding\(\)"),
+                ("deserialize_from(src)", r"\.deserialize_from\(src\)"),
+                ("else=>DeserializationError", r"_ => \{\s*return Err\(Error::DeserializationError\);")]
+        found = []
+        for name, rx in toks:
+            for mm in re.finditer(rx, mf.group(1)):
+                found.append((mm.start(), name))
+        str_list("HEADER_FROM_CALLS", [n for _, n in sorted(found)])
+        out.append("Definition HEADER_FROM_SRC_USES : N := %d." % len(re.findall(r"\bsrc\b", mf.group(1))))
+        toks = [("write_all(MLA_MAGIC)", r"dest\.write_all\(MLA_MAGIC\)\?;"), ("write_u32", r"dest\.write_u32::<\w+>\(self\.format_version\)\?;"),
+                ("with_limit(BINCODE_MAX_DESERIALIZE)", r"\.with_limit\(BINCODE_MAX_DESERIALIZE\)"),
+                ("with_fixint_encoding", r"\.with_fixint_encoding\(\)"), ("serialize_into(dest)", r"\.serialize_into\(dest, &self\.config\)")]
+        found = []
+        for name, rx in toks:
+            for mm in re.finditer(rx, mf.group(2)):
+                found.append((mm.start(), name))
+        str_list("HEADER_DUMP_CALLS", [n for _, n in sorted(found)])
+    else:
+        out.append("Definition HEADER_FROM_CALLS_untranslatable : unit := tt.")
 
 
 def keys_c19(out):
